@@ -316,10 +316,12 @@ def direct_oracle(spec, c):
                             problems.append(msg)
                     elif 0 <= diff <= known + accumulated:
                         rel.append(msg)
-                    elif "Numerical method failed with this set of convergence parameters" in c.get("warn", ""):
-                        # set_and_run_wrapper restores pure phases, solid solutions and kinetics before it retries with other
-                        # convergence parameters, but not the exchanger whose sites were re-sized during the failed attempt
-                        retry.append(msg + " [after failed attempts: 'Numerical method failed with this set of convergence parameters']")
+                    elif diff > 0 and prev.get(x["phase"], 0.0) == 0.0:
+                        # the related phase was absent (0 sites) when this simulation started: the sites the exchanger gains while
+                        # the phase precipitates are carried over into the next reaction step (INCREMENTAL_REACTIONS false) or
+                        # into the next convergence attempt (set_and_run_wrapper restores only pure phases, solid solutions, kinetics)
+                        retry.append(msg + " [related phase had 0 mol at the start of the simulation; surplus carried over from an "
+                                           "earlier step / failed attempt]")
                     else:
                         problems.append(msg)
                 else:
